@@ -80,6 +80,22 @@ type workerState struct {
 	expMemo map[string]*expected
 }
 
+// logTail returns the last warning/error lines of this worker's log (the Core logs to stdout).
+func (w *workerState) logTail() string {
+	buf, err := os.ReadFile(filepath.Join(filepath.Dir(w.dir), fmt.Sprintf("worker-%d.log", w.idx)))
+	if err != nil {
+		return ""
+	}
+	lines := strings.Split(strings.TrimSpace(string(buf)), "\n")
+	var out []string
+	for i := len(lines) - 1; i >= 0 && len(out) < 4; i-- {
+		if strings.Contains(lines[i], " ERR ") || strings.Contains(lines[i], " WAR ") {
+			out = append(out, lines[i])
+		}
+	}
+	return strings.Join(out, " / ")
+}
+
 // baseConf is the fixed part of the configuration: only the API listener is enabled.
 func baseConf(port int) map[string]any {
 	return map[string]any{
@@ -151,9 +167,9 @@ func (w *workerState) start() (*live, error) {
 	if err := os.WriteFile(fn, initialModel().Render(w.base), 0o644); err != nil {
 		return nil, err
 	}
-	p, ok := c12lib.StartCore(fn, 8)
+	p, ok := c12lib.StartCore(fn, 10)
 	if !ok {
-		return nil, fmt.Errorf("core.New failed")
+		return nil, fmt.Errorf("core.New failed; log: %s", w.logTail())
 	}
 	w.cores++
 	tr := &http.Transport{}
@@ -424,7 +440,7 @@ func (w *workerState) reach(job *Job, res *JobResult) (*live, *obs, error) {
 	}
 	if !l.barrier() {
 		l.close()
-		return nil, nil, fmt.Errorf("core terminated at start")
+		return nil, nil, fmt.Errorf("core terminated at start; log: %s", w.logTail())
 	}
 	k0 := hashOf(snapOf(l.p.APIConfigSnapshot()))
 	if res.StartKey == "" {
@@ -442,7 +458,7 @@ func (w *workerState) reach(job *Job, res *JobResult) (*live, *obs, error) {
 		}
 		if !l.barrier() {
 			l.close()
-			return nil, nil, fmt.Errorf("core terminated while replaying %v", op)
+			return nil, nil, fmt.Errorf("core terminated while replaying %v; log: %s", op, w.logTail())
 		}
 		if op.Kind == "global" {
 			l.tr.CloseIdleConnections()
